@@ -80,10 +80,8 @@ def _gen_level(rnd, rules, depth=0):
     return odict(items)
 
 
-@st.composite
-def _cases(draw):
+def _gen_from(rnd):
     from annet import implicit
-    rnd = draw(urandoms())
     fi = rnd.randint(0, len(FAMILIES) - 1)
     model, tags = FAMILIES[fi]
     rules = implicit.compile_rules(_device(model, tags))
@@ -98,6 +96,16 @@ def _cases(draw):
             case["t"] = {}
     return case
 
+
+@st.composite
+def _cases(draw):
+    return _gen_from(draw(urandoms()))
+
+
+def fuzz_decode(fdp):
+    """coverage-guided tier: the same generator driven by fuzzer-chosen bytes (vf/core/fuzz_target.py)"""
+    from vf.model.rnd import FdpRandom
+    return _gen_from(FdpRandom(fdp))
 
 def _mut(rnd, t):
     out = odict()
